@@ -245,6 +245,14 @@ func c12Gen(tier string, shard, nshards int, emit func(sc *world.Scenario) bool)
 		}
 	}
 	gen(nil)
+	// (g) LONG invalid inputs (what the proxy logs about a rejected input must not depend on its size): non-RESP lines and
+	// garbage of 1000..70000 bytes, a bad bulk length followed by kilobytes of payload, an HTTP request
+	for _, n := range []int{1000, 1023, 1024, 1025, 1026, 2047, 2049, 3000, 4097, 70000} {
+		push(fmt.Sprintf("long-line%d", n), append(bytes.Repeat([]byte("x"), n), '\r', '\n'), nil)
+		push(fmt.Sprintf("long-garbage%d", n), append([]byte("*2\r\n$3\r\nget\r\n$-5\r\n"), bytes.Repeat([]byte("p"), n)...), nil)
+		push(fmt.Sprintf("long-after-valid%d", n), append(append(world.Cmd("get", keysA[0]), bytes.Repeat([]byte("\x01z"), n/2)...), '\r', '\n'), []int{5})
+	}
+	push("http", []byte("GET /index.html HTTP/1.1\r\nHost: example.org\r\nUser-Agent: "+strings.Repeat("a", 1500)+"\r\n\r\n"), nil)
 	// (f) well-formed requests with unusual content
 	for oi, req := range c12Odd() {
 		push(fmt.Sprintf("odd%d", oi), req, nil)
